@@ -1,3 +1,4 @@
+_HEXD = '0123456789abcdefABCDEF'
 """
 Classifiers for known_findings.json.  A classifier decides whether ONE disagreement
 (op line, implementation output, model output) is exactly the listed finding; anything else on
@@ -13,3 +14,161 @@ def op_and_outputs(f, line, impl, model):
     if line.split()[0] not in f.get('ops', []):
         return False
     return bool(re.fullmatch(f.get('impl_re', '.*'), impl)) and bool(re.fullmatch(f.get('model_re', '.*'), model))
+
+
+def c06_boxed_hash_precision(f, line, impl, spec):
+    """C06-boxed-eq-hash: BoxedUint values of DIFFERENT precision that compare equal hash differently
+    (derived Hash over the raw limb slice).  Matches only op c06.b.hash with different limb counts,
+    implementation output `1 0` (equal, hashes differ) and spec `1 1`."""
+    t = line.split()
+    return t[0] == 'c06.b.hash' and len(t) == 5 and t[1] != t[3] and impl == '1 0' and spec == '1 1'
+
+
+def c05_wide_shift_zero(f, line, impl, spec):
+    """Uint::overflowing_sh{l,r}_vartime_wide(.., 0) panics (inner shift by BITS is `expect`ed)"""
+    t = line.split()
+    return t[0] in ('c05.u.shl_wide', 'c05.u.shr_wide') and len(t) == 5 and t[4] == '0' and impl == 'panic' and spec != 'panic'
+
+
+def c05_set_bit_vartime_oob(f, line, impl, spec):
+    """set_bit_vartime(index >= BITS) indexes out of bounds (set_bit is a no-op there)"""
+    t = line.split()
+    return (t[0] in ('c05.u.set_bit_vartime', 'c05.b.set_bit_vartime') and len(t) == 5
+            and int(t[3]) >= 64 * int(t[1]) and impl == 'panic' and spec != 'panic')
+
+
+def c05_limb_shift_overflow(f, line, impl, spec):
+    """Limb::shl/shr (and << >>) with shift >= 64: documented panic, release build shifts by shift mod 64"""
+    t = line.split()
+    if t[0] not in ('c05.l.shl', 'c05.l.shr', 'c05.l.op_shl', 'c05.l.op_shr') or spec != 'panic':
+        return False
+    x, s = int(t[1], 16), int(t[2])
+    if s < 64:
+        return False
+    r = (x << (s % 64)) & ((1 << 64) - 1) if t[0].endswith('shl') else x >> (s % 64)
+    return impl == format(r, 'x')
+
+
+def c05_boxed_or_assign_truncates(f, line, impl, spec):
+    """BoxedUint |= rhs with rhs wider than self: limbs of rhs beyond self's precision are dropped"""
+    t = line.split()
+    if t[0] != 'c05.b.or_assign':
+        return False
+    nx, x, y = int(t[1]), int(t[2], 16), int(t[4], 16)
+    return y >> (64 * nx) != 0 and impl == format((x | y) & ((1 << (64 * nx)) - 1), 'x')
+
+
+def _c14_parse(line):
+    """`c14.<op> n a [m] b` -> (op, n, a, m, b) with a, b as unsigned bit patterns"""
+    t = line.split()
+    if len(t) == 4:
+        return t[0], int(t[1]), int(t[2], 16), int(t[1]), int(t[3], 16)
+    if len(t) == 5:
+        return t[0], int(t[1]), int(t[2], 16), int(t[3]), int(t[4], 16)
+    return None
+
+
+def _signed(v, limbs):
+    return v - (1 << (64 * limbs)) if v >> (64 * limbs - 1) else v
+
+
+def c14_floor_rem_sign(f, line, impl, model):
+    """Int::checked_div_rem_floor(_vartime): the quotient is right and the remainder is exactly the
+    NEGATION of floor-mod (re-signed by `opposing_signs` instead of the divisor's sign); happens only
+    for a negative dividend with a non-zero remainder.  `model` is the L0 (Int.fdiv/fmod) output."""
+    p = _c14_parse(line)
+    if p is None or p[0] not in ('c14.div_rem_floor', 'c14.div_rem_floor_vartime'):
+        return False
+    _, n, a, m, b = p
+    it, mt = impl.split(), model.split()
+    if len(it) != 2 or len(mt) != 2 or it[0] != mt[0]:
+        return False          # a wrong quotient is never this finding
+    try:
+        r, r0 = int(it[1], 16), int(mt[1], 16)
+    except ValueError:
+        return False
+    num, den = _signed(a, n), _signed(b, m)
+    return num < 0 and den != 0 and r0 != 0 and r != r0 and (r + r0) % (1 << (64 * m)) == 0
+
+
+def c14_rem_uint_narrow(f, line, impl, model):
+    """Int::div_rem_uint_vartime / rem_uint_vartime with a divisor NARROWER than the dividend: the
+    remainder (< d <= 2^RBITS - 1) is returned as Int<RHS_LIMBS>, which cannot hold magnitudes
+    >= 2^(RBITS-1).  Matches only: right quotient, L0 says the remainder is unrepresentable, and the
+    implementation returned exactly the (re-signed) low RBITS bits of the true remainder."""
+    p = _c14_parse(line)
+    if p is None or p[0] != 'c14.div_rem_uint_vartime':
+        return False
+    _, n, a, m, d = p
+    it, mt = impl.split(), model.split()
+    if len(it) != 2 or len(mt) != 2 or it[0] != mt[0] or mt[1] != 'unrepresentable' or m >= n or d == 0:
+        return False
+    num = _signed(a, n)
+    mag = abs(num) % d
+    want = mag if num >= 0 else (-mag) % (1 << (64 * m))
+    try:
+        return int(it[1], 16) == want and mag >= (1 << (64 * m - 1))
+    except ValueError:
+        return False
+
+
+def c16_odd_from_le_hex_reads_be(f, line, impl, model):
+    """`Odd::<Uint>::from_le_hex` calls the big-endian parser: impl == big-endian reading (value if odd, else panic)."""
+    t = line.split()
+    if len(t) != 3 or t[0] != 'c16.odd.from_le_hex':
+        return False
+    n, s = int(t[1]), bytes.fromhex(t[2][1:])
+    if len(s) != 16 * n or any(chr(c) not in _HEXD for c in s):
+        return False                     # both readings must panic here: nothing to excuse
+    v = int(s.decode('ascii'), 16)
+    return impl == (format(v, 'x') if v & 1 else 'panic')
+
+
+def c16_nz_from_le_byte_array_reads_be(f, line, impl, model):
+    """`NonZero::from_le_byte_array` calls `from_be_byte_array`: impl == big-endian value of the bytes."""
+    t = line.split()
+    if len(t) != 3 or t[0] != 'c16.nz.from_le_byte_array':
+        return False
+    b = bytes.fromhex(t[2][1:])
+    v = int.from_bytes(b, 'big')
+    return v != 0 and impl == format(v, 'x')
+
+
+def c16_int_from_i128_truncates(f, line, impl, model):
+    """`Int::<1>::from_i128(v)` for v outside the i64 range returns the low limb instead of refusing."""
+    t = line.split()
+    if len(t) != 4 or t[0] != 'c16.i.from_prim' or t[1] != '1' or t[2] != 'i128' or model != 'panic':
+        return False
+    return impl == format(int(t[3], 16) & ((1 << 64) - 1), 'x')
+
+
+def c03_trailing_carry(f, line, impl, spec):
+    """C03-boxed-mul-trailing-carry: BoxedUint::mul (karatsuba_mul_limbs) with an odd shorter LHS of
+    >= 33 limbs and a longer RHS loses carries of the trailing `adc_mul_limbs(yt, x, ..)` pass:
+    `carry.wrapping_add(carry2)` wraps.  Matches only: op c03.b.mul, n odd >= 33, m > n, same printed
+    length, and spec - impl = sum of DISTINCT powers B^k with 2*size+2 <= k <= n+m-1 (size = n-1):
+    exactly one lost unit per wrapped row.  Any other wrong answer stays a VIOLATION."""
+    t = line.split()
+    if t[0] not in f.get('ops', []) or len(t) != 5:
+        return False
+    try:
+        n, m = int(t[1]), int(t[2])
+        li, vi = impl.split(':'); ls, vs = spec.split(':')
+        if li != ls or int(li) != n + m:
+            return False
+        d = int(vs, 16) - int(vi, 16)
+    except Exception:
+        return False
+    if not (n % 2 == 1 and n >= 33 and m > n and d > 0):
+        return False
+    size = n - 1
+    k = 0
+    while d:
+        limb = d & ((1 << 64) - 1)
+        if limb not in (0, 1):
+            return False
+        if limb == 1 and not (2 * size + 2 <= k <= n + m - 1):
+            return False
+        d >>= 64
+        k += 1
+    return True
